@@ -392,6 +392,10 @@ func (w *world) afterEvent(n *simNode, ev evInfo, bf nodeBefore, outs []string, 
 		if influenced {
 			if ok, why := w.acceptOK(n, m, bf.h, bf.v); !ok {
 				w.rep.finding("C08", "influenced-by-unacceptable-"+m.Kind, fmt.Sprintf("node %d (h=%d,v=%d) was influenced by a %s that fails the reference predicate (%s): outs=%v", n.id, bf.h, bf.v, m.Kind, why, clip(outs)), w.traceInput())
+				if why == "not the leader" || why == "from the leader" || why == "not addressed to me as leader" || (why == "type/signature/leader" && m.NVType == 4 && m.Snd.Ok) {
+					// the only thing wrong with the message is the sender's role in its view: the node's idea of "leader of view v" is not committee[v mod n]
+					w.rep.finding("C18", "node-treats-another-member-as-leader", fmt.Sprintf("node %d (h=%d) acted on a %s of view %d as if the leader of that view were not member %d (%s): outs=%v", n.id, bf.h, m.Kind, m.view(), w.leaderFor(bf.h, m.view(), n.id), why, clip(outs)), w.traceInput())
+				}
 			}
 		}
 		// ---- C07: PREPARE / adoption in a view above 0 only under a valid NEW_VIEW certificate ----
@@ -408,6 +412,34 @@ func (w *world) afterEvent(n *simNode, ev evInfo, bf nodeBefore, outs []string, 
 		// ---- C11: genuine honest output is accepted by a correct peer in a matching state ----
 		if ev.genuine && bf.inTerm && m.height() == bf.h {
 			w.checkC11(n, m, bf, outs, sent, av)
+		}
+	}
+	if ev.kind == "deliver" && ev.msg.Kind == "NV" && ev.msg.NVHeight > bf.h {
+		n.aheadNV = append(n.aheadNV, ev.msg)
+	}
+	if ah > bf.h {
+		// ---- C07 for messages taken from the future cache: a PREPARE in a view above 0 at the height just started can
+		// only come from a NEW_VIEW delivered ahead of time; if every such NEW_VIEW fails the certificate predicate the
+		// node acted without one (a standalone PREPREPARE from the cache is left to the model correspondence)
+		for _, s := range sent {
+			if s.Kind != "P" || s.Ref.View == 0 || s.Ref.Height != ah {
+				continue
+			}
+			var cands []*aMsg
+			for _, m := range n.aheadNV {
+				if m.NVHeight == ah && m.NVView == s.Ref.View {
+					cands = append(cands, m)
+				}
+			}
+			valid, why := false, ""
+			for _, m := range cands {
+				ok, y := w.nvCertOK(n, m, ah)
+				valid = valid || ok
+				why = y
+			}
+			if len(cands) > 0 && !valid {
+				w.rep.finding("C07", "acted-on-invalid-new-view", fmt.Sprintf("node %d started height %d, consumed a cached NEW_VIEW for view %d that is not a valid certificate (%s) and PREPAREd", n.id, ah, s.Ref.View, why), w.traceInput())
+			}
 		}
 	}
 	if ev.kind == "election" && av != bf.v {
